@@ -21,6 +21,8 @@ json <ct> <id> <nameBad> <namehex> <type> <qc> <cd> <do> <sde> <outcome…>
   → <status> <k> {| status rd cd nq {namehex qtype} nans} d<disposals>          (ct = 0)
   → <status> <k> {| id opcode rcode rd cd nq {namehex qtype qclass} nans ede} d<disposals>   (ct = 1)
 quic <orig:0/1> <poolhex|-> <streamhex|->        → none | <payloadhex>
+quicread <poolhex|-> {; <datahex|-> <nil|eof|other>}     the results of the successive stream.Read calls
+  → none | <payloadhex>                          (readQUICMsg with the real buffer size on that script)
 ```
 -/
 namespace Agd.Driver.C01
@@ -31,14 +33,16 @@ def hexVal (c : Char) : Nat :=
   else if 'a' ≤ c ∧ c ≤ 'f' then c.toNat - 'a'.toNat + 10
   else 0
 
+/-- Tail recursive: a DoQ stream that fills the 64 KiB read buffer is 131070 hex digits. -/
 def hexBytes (s : String) : List Nat :=
-  let rec go : List Char → List Nat
-    | a :: b :: r => (hexVal a * 16 + hexVal b) :: go r
-    | _ => []
-  if s == "-" then [] else go s.toList
+  let rec go : List Char → List Nat → List Nat
+    | a :: b :: r, acc => go r ((hexVal a * 16 + hexVal b) :: acc)
+    | _, acc => acc.reverse
+  if s == "-" then [] else go s.toList []
 
 def toHex (bs : List Nat) : String :=
-  if bs.isEmpty then "-" else String.ofList (bs.flatMap fun b => [hexDigit (b / 16 % 16), hexDigit (b % 16)])
+  if bs.isEmpty then "-" else
+    String.ofList (bs.foldl (fun acc b => hexDigit (b % 16) :: hexDigit (b / 16 % 16) :: acc) []).reverse
 
 /-- Names travel as hex of their UTF-8 bytes; the model treats them as opaque tokens. -/
 def parseQs : Nat → List String → List Question
@@ -204,6 +208,14 @@ def step (s : Unit) : List String → Unit × String
   | ["quic", orig, pool, stream] =>
     let f := if bool! orig then quicPayloadOrig else quicPayload
     (s, match f (hexBytes pool) (hexBytes stream) with | none => "none" | some p => toHex p)
+  | "quicread" :: pool :: rest =>
+    let groups := (splitSemi rest).drop 1
+    let reads : List QRead := groups.filterMap fun g =>
+      match g with
+      | [d, e] => some { data := hexBytes d, err := if e == "eof" then some .eof else if e == "other" then some .other else none }
+      | _ => none
+    if reads.length != groups.length then (s, "bad-op") else
+    (s, match quicRead quicBufSize (hexBytes pool) reads with | none => "none" | some p => toHex p)
   | _ => (s, "bad-op")
 
 def main : IO Unit := loop step ()
